@@ -23,6 +23,7 @@
 (*        "stanza" | "ws" | "close", identity e, last atom `to` (element j *)
 (*        occupies atoms elems[j-1].to+1 .. elems[j].to)                   *)
 (* chars  the characters that occupy more than one atom, [from, to]        *)
+(* bnd, held  the same information indexed by position (see FromCells)     *)
 (* sync   positions at which the peer waits for the receiver (stream       *)
 (*        restart: the new header is an answer to something the receiver   *)
 (*        sent after it had processed everything before), so that no read  *)
@@ -48,8 +49,7 @@ CONSTANTS Shapes,     \* function: shape id -> cell sequence (design model)
           Decoder,    \* "stateful" | "perread"
           Cache       \* "refresh" | "stale"
 
-VARIABLES sid,        \* which shape (export only)
-          stream,     \* description [n, elems, chars, sync] of the stream being received
+VARIABLES sid,        \* which stream is being received (design model: a shape of Shapes)
           pos,        \* atoms read from the transport so far
           carry,      \* atoms held by the decoder (tail of pos)
           buf,        \* [lo, hi] pending decoded atoms
@@ -58,7 +58,7 @@ VARIABLES sid,        \* which shape (export only)
           delivered,  \* events handed to the application so far
           hist        \* reads performed (behaviour export)
 
-mvars == <<sid, stream, pos, carry, buf, hdr, garbled, delivered>>
+mvars == <<sid, pos, carry, buf, hdr, garbled, delivered>>
 vars  == <<mvars, hist>>
 
 (* ----------------------------------------------------------------------- *)
@@ -83,10 +83,16 @@ FromCells(cs) ==
         start == SelectSeq(Idx(Len(cs)), LAMBDA i : cs[i].p = "mb1")
         sy    == SelectSeq(Idx(Len(cs)), LAMBDA i : cs[i].sync)
         EndOf(i) == CHOOSE j \in i + 1..Len(cs) : cs[j].p = "mb2" /\ \A m \in i + 1..j - 1 : cs[m].p = "mbm"
+        mbs(i)   == CHOOSE j \in 1..i : cs[j].p = "mb1" /\ \A m \in j + 1..i : cs[m].p = "mbm"
     IN [n     |-> Len(cs),
         elems |-> [j \in 1..Len(fin) |-> [k |-> ElemKind(cs[fin[j]].t), e |-> cs[fin[j]].e, to |-> fin[j]]],
         chars |-> [c \in 1..Len(start) |-> [from |-> start[c], to |-> EndOf(start[c])]],
-        sync  |-> [j \in 1..Len(sy) |-> sy[j] - 1]]     \* POSITION = number of atoms before the cell
+        sync  |-> [j \in 1..Len(sy) |-> sy[j] - 1],     \* POSITION = number of atoms before the cell
+        \* indexes (redundant, for O(1) evaluation on long byte-level streams):
+        \* bnd[p]  = j if element j ends with atom p, else 0
+        \* held[p] = atoms of an incomplete character that end at position p, else 0
+        bnd   |-> [p \in 1..Len(cs) |-> IF FinalCell(cs, p) THEN Cardinality({i \in 1..p : FinalCell(cs, i)}) ELSE 0],
+        held  |-> [p \in 1..Len(cs) |-> IF cs[p].p \in {"mb1", "mbm"} THEN p - mbs(p) + 1 ELSE 0]]
 
 SyncPositions(s) == {s.sync[i] : i \in DOMAIN s.sync}
 
@@ -123,14 +129,21 @@ ModelShapes ==
 (* ----------------------------------------------------------------------- *)
 NElems(s) == Len(s.elems)
 ElemFrom(s, j) == IF j = 1 THEN 0 ELSE s.elems[j - 1].to       \* position before element j
-Boundary(s, p) == p = 0 \/ \E j \in 1..NElems(s) : s.elems[j].to = p
+Boundary(s, p) == p = 0 \/ s.bnd[p] # 0
 
 \* position p (0..n) lies strictly inside character c
 Inside(s, c, p) == s.chars[c].from <= p /\ p < s.chars[c].to
 CutChars(s, p) == {c \in DOMAIN s.chars : Inside(s, c, p)}
 \* atoms of an incomplete character before position p
-Held(s, p) == IF CutChars(s, p) = {} THEN 0
-              ELSE LET c == CHOOSE c \in CutChars(s, p) : TRUE IN p - (s.chars[c].from - 1)
+Held(s, p) == s.held[p]
+
+\* the indexes agree with elems / chars (checked for the shapes by ASSUME, for corpus streams by
+\* lib/framing_corpus.describe(), which builds them from elems / chars)
+IndexOK(s) ==
+    /\ \A p \in 1..s.n : s.bnd[p] = (IF \E j \in 1..NElems(s) : s.elems[j].to = p
+                                     THEN CHOOSE j \in 1..NElems(s) : s.elems[j].to = p ELSE 0)
+    /\ \A p \in 1..s.n : s.held[p] = (IF CutChars(s, p) = {} THEN 0
+                                      ELSE LET c == CHOOSE c \in CutChars(s, p) : TRUE IN p - (s.chars[c].from - 1))
 
 \* header in force for element j according to the stream itself
 TrueHdr(s, j) ==
@@ -159,51 +172,57 @@ IsPrefix(a, b) == Len(a) <= Len(b) /\ \A i \in 1..Len(a) : a[i] = b[i]
 (* ----------------------------------------------------------------------- *)
 (* behaviour                                                               *)
 (* ----------------------------------------------------------------------- *)
+\* The description of the stream is a parameter `s` of the actions, not a variable: in the design
+\* model it is Stream (the description of shape sid), in FramingTrace the description logged with
+\* the corpus stream.  Both are constant-level, so they are not part of the state.
+Desc   == [id \in DOMAIN Shapes |-> FromCells(Shapes[id])]
+Stream == Desc[sid]
+
 Init ==
     /\ sid \in DOMAIN Shapes
-    /\ stream = FromCells(Shapes[sid])
     /\ pos = 0 /\ carry = 0 /\ buf = [lo |-> 0, hi |-> 0] /\ hdr = 0
     /\ garbled = {} /\ delivered = <<>> /\ hist = <<>>
 
-CanRead(k) ==
-    /\ k >= 1 /\ pos + k <= stream.n
-    /\ \A p \in SyncPositions(stream) : ~(pos < p /\ p < pos + k)
+CanRead(s, k) ==
+    /\ k >= 1 /\ pos + k <= s.n
+    /\ \A p \in SyncPositions(s) : ~(pos < p /\ p < pos + k)
 
 \* elements completely inside (lo, hi], in order
-Batch(lo, hi) == SelectSeq(Idx(NElems(stream)), LAMBDA j : lo <= ElemFrom(stream, j) /\ stream.elems[j].to <= hi)
+Batch(s, lo, hi) ==
+    LET a == IF lo = 0 THEN 1 ELSE s.bnd[lo] + 1
+        b == s.bnd[hi]
+    IN [i \in 1..(b - a + 1) |-> a + i - 1]
 
-\* the header the mechanism uses for element j of a batch: a header earlier in the same
-\* batch, else the cached one
-MechHdr(js, j) ==
-    LET H == {i \in 1..Len(js) : js[i] < j /\ stream.elems[js[i]].k = "hdr"}
+\* the header the mechanism uses for element j of a batch js: a header earlier in the same
+\* batch (hs = indices into js of the headers of the batch), else the cached one
+MechHdr(s, js, hs, j) ==
+    LET H == {i \in hs : js[i] < j}
     IN IF H = {} \/ (Cache = "stale" /\ hdr # 0) THEN hdr
-       ELSE stream.elems[js[CHOOSE i \in H : \A m \in H : m <= i]].e
+       ELSE s.elems[js[CHOOSE i \in H : \A m \in H : m <= i]].e
 
-LastHdr(js) ==
-    LET H == {i \in 1..Len(js) : stream.elems[js[i]].k = "hdr"}
-    IN IF H = {} \/ (Cache = "stale" /\ hdr # 0) THEN hdr
-       ELSE stream.elems[js[CHOOSE i \in H : \A m \in H : m <= i]].e
+Hdrs(s, js) == {i \in 1..Len(js) : s.elems[js[i]].k = "hdr"}
 
 \* readyRead: k atoms arrive; decode; append to the buffer; try to parse; deliver
-Read(k) ==
-    /\ CanRead(k)
+Read(s, k) ==
+    /\ CanRead(s, k)
     /\ LET np == pos + k
-           c  == IF Decoder = "stateful" THEN Held(stream, np) ELSE 0
+           c  == IF Decoder = "stateful" THEN Held(s, np) ELSE 0
            hi == np - c
-           g  == IF Decoder = "stateful" THEN garbled ELSE garbled \cup CutChars(stream, np)
+           g  == IF Decoder = "stateful" THEN garbled ELSE garbled \cup CutChars(s, np)
        IN /\ pos' = np /\ carry' = c /\ garbled' = g
-          /\ IF Boundary(stream, hi) /\ hi > buf.lo
-             THEN LET js == Batch(buf.lo, hi)
-                      ev == NonWs(stream, js)
-                  IN /\ delivered' = delivered \o [i \in 1..Len(ev) |-> Event(stream, ev[i], MechHdr(js, ev[i]), g)]
-                     /\ hdr' = LastHdr(js)
+          /\ IF Boundary(s, hi) /\ hi > buf.lo
+             THEN LET js == Batch(s, buf.lo, hi)
+                      hs == Hdrs(s, js)
+                      ev == NonWs(s, js)
+                  IN /\ delivered' = delivered \o [i \in 1..Len(ev) |-> Event(s, ev[i], MechHdr(s, js, hs, ev[i]), g)]
+                     /\ hdr' = MechHdr(s, js, hs, s.n + 1)
                      /\ buf' = [lo |-> hi, hi |-> hi]
              ELSE /\ buf' = [lo |-> buf.lo, hi |-> hi]
                   /\ UNCHANGED <<delivered, hdr>>
     /\ hist' = Append(hist, [a |-> "Read", n |-> k])
-    /\ UNCHANGED <<sid, stream>>
+    /\ UNCHANGED sid
 
-Next == \E k \in 1..stream.n : Read(k)
+Next == \E k \in 1..Stream.n : Read(Stream, k)
 
 Spec == Init /\ [][Next]_vars
 
@@ -215,14 +234,14 @@ P_Prefix(d, ref)         == IsPrefix(d, ref)                \* nothing lost, dup
 P_Complete(p, n, d, ref) == p = n => d = ref                \* everything delivered once all bytes are in
 P_Grow(d, dn)            == IsPrefix(d, dn)                 \* delivery is append-only
 
-PrefixOK   == P_Prefix(delivered, Reference(stream))
-CompleteOK == P_Complete(pos, stream.n, delivered, Reference(stream))
-Quiescent  == pos = stream.n => carry = 0 /\ buf.lo = buf.hi /\ buf.hi = pos
+PrefixOK   == P_Prefix(delivered, Reference(Stream))
+CompleteOK == P_Complete(pos, Stream.n, delivered, Reference(Stream))
+Quiescent  == pos = Stream.n => carry = 0 /\ buf.lo = buf.hi /\ buf.hi = pos
 AppendOnly == [][P_Grow(delivered, delivered')]_vars
 
 TypeOK ==
-    /\ pos \in 0..stream.n /\ carry \in 0..3 /\ buf.lo <= buf.hi /\ buf.hi = pos - carry
-    /\ Boundary(stream, buf.lo)
+    /\ pos \in 0..Stream.n /\ carry \in 0..3 /\ buf.lo <= buf.hi /\ buf.hi = pos - carry
+    /\ Boundary(Stream, buf.lo)
     /\ (Decoder = "stateful" => garbled = {})
 
 \* sanity of the shapes themselves
@@ -231,11 +250,12 @@ ShapesOK ==
         LET d == FromCells(Shapes[s])
         IN /\ d.n <= 14 /\ d.elems[NElems(d)].to = d.n /\ d.elems[1].k = "hdr"
            /\ \A c \in DOMAIN d.chars : d.chars[c].to > d.chars[c].from
+           /\ IndexOK(d)
 ASSUME ShapesOK
 
 \* re-initialisation used by the trace specification at an execution boundary
-Reinit(id, s) ==
-    /\ sid' = id /\ stream' = s
+Reinit(id) ==
+    /\ sid' = id
     /\ pos' = 0 /\ carry' = 0 /\ buf' = [lo |-> 0, hi |-> 0] /\ hdr' = 0
     /\ garbled' = {} /\ delivered' = <<>> /\ hist' = <<>>
 
